@@ -298,8 +298,8 @@ func runC01Scenario(sc c01Scenario, idx int, res *lib.Result) {
 	sweep := func(t string) bool {
 		lines := strings.Split(t, "\n")
 		for ln, l := range lines {
-			// the first 14 lines and the last 24 (scenario families append their special constructs at the end)
-			if ln >= 14 && ln < len(lines)-24 {
+			// the first 14 lines and the last 40 (scenario families append their special constructs at the end)
+			if ln >= 14 && ln < len(lines)-40 {
 				continue
 			}
 			cols := []int{0, len(l) / 2, len(l)}
@@ -492,7 +492,7 @@ func runC01(res *lib.Result, tier string, seed int64, args []string) error {
 	if tier == "thorough" {
 		n, batch = 2000, 40
 	}
-	res.Rule = "scenarios run against the real server in child processes (a crash kills only the child; the parent records the scenario that was running and goes on): token soup and raw bytes, mutated and truncated programs (and EVERY prefix of those files through the real parser), annotation soup with enum blocks, cyclic class / alias worlds with indexed access, random luahelper.json files (regex metacharacters, invalid JSON, odd separators), partial unsaved edits, deep nesting (50-1500 levels), file events on malformed files, workspaces with more files than worker goroutines; a fault swallowed by the parser's recover() (hook VerifRecovered) is reported as an abandoned analysis; in every scenario hover, definition, references, completion, signatureHelp, documentHighlight and rename are sent at 3-7 columns of each of the first 14 and last 8 lines, plus documentSymbol, documentColor and workspace/symbol; a request that does not answer within 15 s is a hang; non-trivial = every scenario; distinct by scenario"
+	res.Rule = "scenarios run against the real server in child processes (a crash kills only the child; the parent records the scenario that was running and goes on): token soup and raw bytes, mutated and truncated programs (and EVERY prefix of those files through the real parser), annotation soup with enum blocks, cyclic class / alias worlds with indexed access, random luahelper.json files (regex metacharacters, invalid JSON, odd separators), partial unsaved edits, deep nesting (50-1500 levels), file events on malformed files, workspaces with more files than worker goroutines; a fault swallowed by the parser's recover() (hook VerifRecovered) is reported as an abandoned analysis; in every scenario hover, definition, references, completion, signatureHelp, documentHighlight and rename are sent at 3-7 columns of each of the first 14 and last 40 lines, plus documentSymbol, documentColor and workspace/symbol; a request that does not answer within 15 s is a hang; non-trivial = every scenario; distinct by scenario"
 	work := lib.ScratchDir("c01")
 	defer os.RemoveAll(work)
 	kinds := map[string]int{}
